@@ -16,6 +16,8 @@ Inductive paction :=
 | AFence             (* self.lock_provider.is_held() *)
 | AFlip              (* self._write_hint_at_commit_point(<the file just written>, <etag>) *)
 | ARelease           (* self._release_lock_safely(), in the `finally` of the section opened by ALock *)
+| ACheckAbsent       (* initialize_table: `if self._current_version_info() is not None: raise TableExistsError` *)
+| APtrCreate         (* initialize_table: the first write of the version pointer (create-if-absent where the store can) *)
 | AMaybe (a : paction).   (* the action sits under a data-dependent `if` (fallbacks) *)
 
 (* exception classes as the handlers of the commit path distinguish them *)
@@ -31,6 +33,12 @@ Inductive tx_action :=
 | TxRollbackDelete   (* self._rollback()  -- delete_files defaults to True *)
 | TxRollbackKeep     (* self._rollback(delete_files=False) *)
 | TxPropagate.       (* no arm catches it *)
+
+(* outcome of a failing pointer creation in initialize_table *)
+Inductive create_fail :=
+| CFTableExists      (* TableExistsError: somebody else initialised the table; v0 stays (it was never named) *)
+| CFDiscardRaise     (* the write is guaranteed invisible: the unpublished v0 is removed, the error propagates *)
+| CFKeepRaise.       (* the write may have taken effect: v0 is kept, the error propagates *)
 
 (* how the commit-point write can fail *)
 Inductive flip_err :=
